@@ -656,6 +656,20 @@ class Rig:
         """Event ("rekey", "client"|"server"): that side begins a key re-exchange (Transport.renegotiate_keys) and
         both sides run it to completion before the next event.  The session identifier (self.sid, what the
         harness signs) stays that of the FIRST exchange.  On an ended connection nothing is sent."""
+        if who == "svcreq":
+            # Event ("rekey", "svcreq") - not a re-exchange but the other event the statement demands nothing of:
+            # the client asks for the "ssh-userauth" service AGAIN (paramiko's own client does so before every
+            # attempt).  It must preserve what a re-exchange must preserve (pinned name, attempt count).
+            how = "svc"
+            if not (self.ts.active and self.tc.active):
+                how = "skipped:connection-ended"
+            else:
+                self.send(F.msg(5, ("str", b"ssh-userauth")))
+            self.s.quiesce()
+            o = self.observe()
+            o["delivered"] = 0
+            o["rekey"] = how
+            return o
         t = self.tc if who == "client" else self.ts
         h0, how = self.ts.H, "ok"
         if not (self.ts.active and self.tc.active):
